@@ -1,0 +1,48 @@
+//go:build verif
+
+package interp
+
+import (
+	"reflect"
+	"sync/atomic"
+	"unsafe"
+)
+
+// VerifStep describes one interpreted operation about to be executed.
+// It exists only in builds with the verif tag and is used by external
+// runtime monitors (schedule perturbation, cancellation points, coverage).
+type VerifStep struct {
+	Interp *Interpreter // interpreter executing the operation
+	Frame  uintptr      // identity of the frame the operation runs in
+	RunID  uint64       // run id of that frame
+	PC     uintptr      // code pointer of the operation closure (0 unless requested)
+	Debug  bool         // true when running under the debugger loop
+}
+
+type verifHook struct {
+	fn     func(VerifStep)
+	wantPC bool
+}
+
+var verifHookPtr atomic.Pointer[verifHook]
+
+// VerifSetStep installs (or, with nil, removes) the step monitor.
+func VerifSetStep(fn func(VerifStep), wantPC bool) {
+	if fn == nil {
+		verifHookPtr.Store(nil)
+		return
+	}
+	verifHookPtr.Store(&verifHook{fn: fn, wantPC: wantPC})
+}
+
+func verifStep(n *node, f *frame, exec bltn, dbg bool) {
+	h := verifHookPtr.Load()
+	if h == nil {
+		return
+	}
+	s := VerifStep{Interp: n.interp, Frame: uintptr(unsafe.Pointer(f)), RunID: f.runid(), Debug: dbg}
+	if h.wantPC && exec != nil {
+		s.PC = reflect.ValueOf(exec).Pointer()
+	}
+	h.fn(s)
+}
